@@ -937,3 +937,174 @@ def c12_identity_passthrough_guard(F, rep):
                           it["name"], conds, "nothing says the requested shape is empty or equal to the source's" if not shape_ok else "the element kinds are not compared"),
                       "%s (mech_interpreter.lib)" % it["name"], sample={"fn": it["name"], "guards": conds})
     rep.floor("C12-R7", "identity passthrough sites", n, 1)
+
+
+# ---------------------------------------------------------------- C11-R7 the k-th block handed to a concatenation kernel is the k-th argument
+def c11_block_operand_positions(F, rep):
+    rep.rule("C11-R7", "block operands keep their position: in every arm of the horzcat / vertcat dispatchers the field eK of the concatenation struct is built from arguments[K] "
+                       "(through `let eK = extract(&arguments[K])`, a tuple match over (&arguments[0], &arguments[1], ..), or directly) - a repeated or exchanged index writes one block twice "
+                       "and never checks the kind of the block it dropped")
+    n = 0
+    for it in F.syn("mech_interpreter.lib"):
+        if it["k"] != "fn" or it["name"] not in ("impl_horzcat_fxn", "impl_vertcat_fxn") or not it.get("body"):
+            continue
+
+        def arg_ix(e, env):
+            """index K if the expression is taken from arguments[K] (directly or through a name bound from it)"""
+            if not is_node(e):
+                return None
+            for x in walk(e):
+                if x[0] == "index" and is_node(x[1]) and x[1][0] == "path" and x[1][1] == "arguments" and is_node(x[2]) and x[2][0] == "int":
+                    return int(re.sub(r"\D.*$", "", str(x[2][1])))
+            for x in walk(e):
+                if x[0] == "path" and x[1] in env:
+                    return env[x[1]]
+            return None
+
+        def visit(e, env):
+            nonlocal n
+            if not is_node(e):
+                if isinstance(e, list):
+                    for x in e:
+                        visit(x, env)
+                return
+            t = e[0]
+            if t in ("block", "unsafe"):
+                env2 = dict(env)
+                for st in e[1]:
+                    visit(st, env2)
+                return
+            if t == "let":
+                if len(e) > 2 and e[2] is not None:
+                    visit(e[2], env)
+                    k = arg_ix(e[2], env)
+                    for b in find(e[1], "pident"):
+                        if k is not None:
+                            env[b[1]] = k
+                        else:
+                            env.pop(b[1], None)
+                return
+            if t == "expr":
+                visit(e[1], env)
+                return
+            if t == "match":
+                scr = e[1]
+                comps = scr[1] if is_node(scr) and scr[0] == "tuple" else [scr]
+                ks = [arg_ix(c, env) for c in comps]
+                for a in e[2]:
+                    env2 = dict(env)
+                    pats = a[0][1] if a[0][0] == "ptuple" and len(a[0][1]) == len(comps) else ([a[0]] if len(comps) == 1 else [])
+                    for j, p_ in enumerate(pats):
+                        for b in find(p_, "pident"):
+                            if ks[j] is not None:
+                                env2[b[1]] = ks[j]
+                            else:
+                                env2.pop(b[1], None)
+                    if a[1] is not None:
+                        visit(a[1], env2)
+                    visit(a[2], env2)
+                return
+            if t == "for":
+                env2 = dict(env)
+                for b in find(e[1], "pident"):
+                    env2.pop(b[1], None)
+                visit(e[3], env2)
+                return
+            if t == "struct":
+                fields = [(f[0], f[1]) for f in e[2] if re.match(r"^e\d+$", f[0])]
+                if len(fields) >= 2:
+                    n += 1
+                    got = [(f, arg_ix(v, env)) for f, v in fields]
+                    bad = [(f, k) for f, k in got if k is not None and k != int(f[1:])]
+                    und = [f for f, k in got if k is None]
+                    name = e[1].split("::")[-1]
+                    rep.check(not bad, "C11-R7", "%s:%s" % (it["name"], name) if not bad else "%s:%s:%s" % (it["name"], name, ",".join("%s=arguments[%d]" % (f, k) for f, k in bad)),
+                              "%s builds %s with %s: block %s of the row/column is not the block written at that position" % (
+                                  it["name"], name, ", ".join("%s from arguments[%s]" % (f, k) for f, k in got), bad[0][0] if bad else ""), "%s (mech_interpreter.lib)" % it["name"],
+                              sample={"struct": name, "operands": got, "untraced": und})
+            for x in e[1:]:
+                if isinstance(x, list):
+                    visit(x, env)
+
+        visit(["block", it["body"]], {})
+    rep.floor("C11-R7", "concatenation struct constructions with >= 2 block operands", n, 20)
+
+
+# ---------------------------------------------------------------- C14-R8 the kind of a set operator's result is the kind of its own elements
+def c14_result_kind_from_result(F, rep):
+    rep.rule("C14-R8", "result metadata of the set operators: wherever a set kernel assigns the kind of its output set, the kind is read from the OUTPUT's own elements (or is Empty for an "
+                       "empty result) and never copied from an operand - `{} Δ {1,2}` holds numbers, so a kind inherited from the empty left operand makes every membership test fail")
+    n = 0
+    for it in F.syn("mech_set.lib"):
+        if it["k"] != "method" or it["name"] != "solve" or not it.get("body"):
+            continue
+        th = re.sub(r"<.*$", "", it["self"])
+        names = {x[1] for x in find(it["body"], "path")} | {render(f) for f in find(it["body"], "field")}
+        if not (any(re.search(r"\blhs", x) for x in names) and any(re.search(r"\brhs", x) for x in names)):
+            continue          # the binary set-algebra operators only (insert / remove / powerset have their own kind rules)
+        for a in find(it["body"], "assign"):
+            lhs = render(a[1]).replace(" ", "")
+            if not re.match(r"^\(?\*?\(?out\w*\)?\.kind$|^out\w*\.kind$", lhs):
+                continue
+            n += 1
+            roots = {x[1] for x in find(a[2], "path") if re.match(r"^(lhs|rhs|arg|source|self)\w*$", x[1])} | \
+                    {render(f) for f in find(a[2], "field") if re.match(r"^self\.(lhs|rhs|arg)", render(f))}
+            reads_out = any(re.match(r"^out\w*$", x[1]) for x in find(a[2], "path"))
+            ok = not roots and reads_out
+            rep.check(ok, "C14-R8", "%s:kind-from-result" % th if ok else "%s:kind-from-%s" % (th, "+".join(sorted(roots)) or "nothing-of-the-result"),
+                      "%s::solve sets the output set's kind to `%s`: it %s - the result can hold elements of another kind than it reports (set/element-of, not-element-of and remove compare kinds first)" % (
+                          th, render(a[2])[:90], ("reads the operand(s) %s" % sorted(roots)) if roots else "does not read the result's elements"), "%s (mech_set.lib)" % th, sample={"kernel": th})
+    rep.floor("C14-R8", "output-kind assignments in set kernels", n, 4)
+
+
+# ---------------------------------------------------------------- C14-R9 a kind test a set kernel applies silently is applied loudly when the kernel is built
+def c14_kind_guard_mirrored(F, rep):
+    from lib import guards as G
+    rep.rule("C14-R9", "no silent empty result: when a set kernel's solve() clears its output and refills it only under a kind test (a call of a *types_match / match_types predicate), "
+                       "the function that builds the kernel applies the same predicate and returns Err when it fails - otherwise `set/insert({}, 1)` or an element of another kind "
+                       "quietly yields the empty set")
+    items = F.syn("mech_set.lib")
+    n = 0
+    for it in items:
+        if it["k"] != "method" or it["name"] != "solve" or not it.get("body"):
+            continue
+        th = re.sub(r"<.*$", "", it["self"])
+        clears = [m for m in find(it["body"], "mcall") if m[2] == "clear" and re.search(r"out\w*\.set$|out\w*\)\.set$", render(m[1]).replace(" ", ""))]
+        if not clears:
+            continue
+        preds = set()
+        lets = {}
+        for st in find(it["body"], "let"):
+            if len(st) > 2 and st[2] is not None:
+                calls = [path_of(c[1]).split("::")[-1] for c in find(st[2], "call") if path_of(c[1]) and re.search(r"match", path_of(c[1]).split("::")[-1])]
+                for b in find(st[1], "pident"):
+                    if calls:
+                        lets[b[1]] = calls[0]
+        guarded = False
+        for site, facts in G.sites(it["body"], "assign") + G.sites(it["body"], "mcall"):
+            tgt = render(site[1]).replace(" ", "") if site[0] == "assign" else (render(site[1]).replace(" ", "") if site[2] in ("insert", "extend") else "")
+            if not re.search(r"out\w*\)?\.set$", tgt):
+                continue
+            for c, pol in G.atoms(facts):
+                for x in walk(c):
+                    if x[0] == "path" and x[1] in lets:
+                        preds.add(lets[x[1]])
+                        guarded = True
+        if not guarded:
+            continue
+        n += 1
+        # builders: functions of the same module constructing this struct
+        builders = [b for b in items if b["k"] == "fn" and b.get("mod") == it.get("mod") and b.get("body") and any(s_[1].split("::")[-1] == th for s_ in find(b["body"], "struct"))]
+        mirrored = False
+        for b in builders:
+            for r_, facts in G.sites(b["body"], "ret"):
+                if r_[1] is None or not re.match(r"^Err\(", render(r_[1])):
+                    continue
+                for c, pol in G.atoms(facts):
+                    if any(x[0] == "call" and path_of(x[1]) and path_of(x[1]).split("::")[-1] in preds for x in walk(c)) or \
+                            any(x[0] == "path" and x[1] in preds for x in walk(c)):
+                        mirrored = True
+        rep.check(mirrored, "C14-R9", "%s:kind-test-mirrored" % th if mirrored else "%s:kind-test-only-in-solve:%s" % (th, "+".join(sorted(preds))),
+                  "%s::solve clears its output and refills it only when %s holds, but %s never reject(s) the failing case: the operation silently returns the empty set (e.g. inserting into `{}`, "
+                  "whose kind is Empty, or inserting an element of another kind)" % (th, sorted(preds), [b["name"] for b in builders] or "its builders"), "%s (mech_set.lib)" % th, sample={"kernel": th, "predicates": sorted(preds)})
+    rep.floor("C14-R9", "set kernels that refill a cleared output under a kind test", n, 1)
